@@ -403,8 +403,9 @@ def _arm_eval(model: Model, parse, body: list[ast.stmt], case: str) -> str:
     mod = parse.module
     flags = FLAG_CASES[case]
     env: dict[str, tuple] = {}
-    kls_names = {dotted(n.value) for st in body for n in ast.walk(st) if isinstance(n, ast.Attribute) and n.attr in flags and dotted(n.value)}
+    kls_names = {dotted(n.value) for n in walk_no_nested(parse.node) if isinstance(n, ast.Attribute) and n.attr in flags and dotted(n.value)}
     eff: list[str] = []
+    ploc = Loc(model, parse)
 
     def aval(e: ast.AST) -> tuple:
         if isinstance(e, ast.Constant) and e.value is None:
@@ -429,11 +430,18 @@ def _arm_eval(model: Model, parse, body: list[ast.stmt], case: str) -> str:
         if isinstance(e, (ast.Name, ast.Attribute)) and dotted(e) in kls_names:
             return None if case == 'tail' else True
         if isinstance(e, ast.Name):
+            if e.id not in env:
+                # a flag computed once ahead of the arms:  treat_as_withdraw = kls and kls.TREAT_AS_WITHDRAW
+                d = ploc.single(e.id)
+                if d is not None and not isinstance(d, ast.Name):
+                    return ev(d)
             v = env.get(e.id, ('unk',))
             return False if v[0] == 'none' else (True if v[0] == 'obj' else None)
         if isinstance(e, ast.UnaryOp) and isinstance(e.op, ast.Not):
             t = ev(e.operand)
             return None if t is None else (not t)
+        if isinstance(e, ast.Call) and isinstance(e.func, ast.Name) and e.func.id == 'bool' and len(e.args) == 1 and not e.keywords:
+            return ev(e.args[0])
         if isinstance(e, ast.BoolOp):
             vs = [ev(v) for v in e.values]
             if isinstance(e.op, ast.And):
